@@ -132,6 +132,10 @@ def tmpl(name, args):
         return ("call", "hyp", (), (("y", X), ("x", ("lit", 2))))
     if name == "unit":    # a string literal as positional argument of a call
         return ("call", "scale", (X, ("lit", "k")), ())
+    if name == "litneg":  # explicit LiteralExpr nodes: under a unary operator and as an operand
+        return ("bin", "mul", ("un", "neg", ("L", 2)), ("bin", "add", X, ("L", 1)))
+    if name == "bigdiv":  # true division and modulo against a float (ints beyond the float range make Python raise OverflowError)
+        return ("bin", "add", ("bin", "truediv", X, ("lit", 4)), ("bin", "mod", X, ("lit", 2.5)))
     if name == "flaky":  # a call whose evaluation is a fault point
         return ("call", "flaky", (X,), ())
     if name == "pair1":  # an item of a call RESULT: f.pair(X)[1]  (the owner of the item ref is a computed expression)
@@ -149,7 +153,7 @@ def tmpl(name, args):
     raise ValueError(name)
 
 
-UNARY = ("mul2", "inc", "neg", "dbl", "pick", "abs", "round1", "lt", "eqx", "floor", "rpow", "abs2", "pair1", "cplx", "kw2", "unit", "flaky")
+UNARY = ("mul2", "inc", "neg", "dbl", "pick", "abs", "round1", "lt", "eqx", "floor", "rpow", "abs2", "pair1", "cplx", "kw2", "unit", "flaky", "litneg", "bigdiv")
 BINARY_SYM = ("add", "mul")
 BINARY_ASYM = ("sub", "addr", "mulr", "roundr")
 
@@ -676,8 +680,9 @@ class ManagerSystem:
                 leaves += 1
                 continue
             try:
-                issues.extend(self.transition_checks(w, ms, op, ns, ex, hist))
+                # digest first: an oracle's own queries must not leak into the identity of the explored state
                 dg = canon(w)
+                issues.extend(self.transition_checks(w, ms, op, ns, ex, hist))
                 if dg not in self._checked:
                     if len(self._checked) > 2000000:
                         self._checked.clear()
